@@ -11,17 +11,28 @@ from props.c09 import base_script, PROXY_200
 MECHANISMS = ("break", "raise", "gen_close", "with_exit", "with_exit_long_text", "gen_close_other_thread", "drop_in_other_thread")
 
 
-def _closed_by_library(st):
+def _closed_by_library(st, tunnel_refused=False):
     """"the library closes the TCP socket": close() must have been CALLED.  Only on a connection
-    that was reset (where shutdown() fails with ENOTCONN and lomond skips close()) or that never
-    connected is finalisation of the socket object accepted instead."""
+    that was reset (where shutdown() fails with ENOTCONN and lomond skips close()), that never
+    connected, or whose proxy refused the tunnel (the attempt never got as far as Connected; lomond
+    drops that socket and CPython releases the descriptor as soon as the abandoned generator is
+    finalised) is finalisation of the socket object accepted instead."""
     if st.closed:
         return True
-    return st.finalised and (st.broken or not st.connected)
+    return st.finalised and (st.broken or not st.connected or tunnel_refused)
+
+
+# what a proxy may answer instead of bringing the tunnel up (bytes, how the connection to it ends)
+PROXY_REFUSALS = [(b"HTTP/1.1 407 Proxy Authentication Required\r\nProxy-Authenticate: Basic realm=\"x\"\r\n\r\n", "eof"),
+                  (b"HTTP/1.1 502 Bad Gateway\r\n\r\n", "eof"), (b"HTTP/1.1 200 Connection est", "eof"), (b"", "eof"),
+                  (b"HTTP/1.1 403 Forbidden\r\n\r\n", "reset"), (b"\x15\x03\x01\x00\x02\x02\x28" + b"x" * 40 + b"\r\n\r\n", "eof")]
 
 
 def scenario_for(case, abandon_at=None, mech=None):
-    script, pre, post = base_script(case)
+    refusal = None
+    if case.get("proxy") and case.get("proxy_refuses") is not None:
+        refusal = PROXY_REFUSALS[case["proxy_refuses"] % len(PROXY_REFUSALS)]
+    script, pre, post = base_script(case, proxy_override=refusal)
     reactions = copy.deepcopy(case["sends"])
     if case["client_close"] is not None:
         reactions.append({"when": ["msg", case["client_close"]], "do": [["close", 1000, "cli"]]})
@@ -119,6 +130,8 @@ class C13(Prop):
             "ping_timeout": st.booleans(),
             "tls": gen.weighted([(3, st.just(False)), (1, st.just(True))]),
             "proxy": gen.weighted([(4, st.just(False)), (1, st.just(True))]),      # through an HTTP proxy (CONNECT)
+            # ... which may refuse the tunnel (the attempt then ends in ConnectFail)
+            "proxy_refuses": gen.weighted([(2, st.none()), (1, st.integers(0, len(PROXY_REFUSALS) - 1))]),
             "sends": sends,
             "client_close": st.one_of(st.none(), st.none(), st.integers(0, 3)),
             "server_close": gen.weighted([(3, st.just(False)), (1, st.just(True))]),
@@ -165,7 +178,13 @@ class C13(Prop):
         battery = [{"msgs": [text, ping], "msgs2": [text], "idle": True, "ping_timeout": False, "tls": False, "proxy": False,
                     "sends": [{"when": ["event", "ready", 0], "do": [["send_text", "app"]]}], "client_close": None,
                     "server_close": False, "end": "eof", "seg": "whole", "send_fault": None}]
+        def refusals():
+            for k in range(len(PROXY_REFUSALS)):
+                for tls in (False, True):
+                    for b in battery:
+                        yield dict(b, proxy=True, proxy_refuses=k, tls=tls)
         return [Enumeration("abandoned_while_another_thread_is_inside_a_send", cases, exhaustive=True),
+                Enumeration("every_abandonment_when_the_proxy_refuses_the_tunnel", refusals, exhaustive=True),
                 after_every_prelude(battery, "every_abandonment_after_every_kind_of_earlier_connection")]
 
     def run_case(self, case):
@@ -206,11 +225,14 @@ class C13(Prop):
                     return failed("abandon_raised", "abandoning by %s at event %d (%s) raised %s" % (
                         mech, i, name, tr.abandon_error), labels, after_connected, sub)
                 sim = tr.sim
-                leaked = [s for s in sim.socks if not _closed_by_library(s)]
+                refused = bool(case.get("proxy") and case.get("proxy_refuses") is not None)
+                if refused:
+                    labels.add("proxy_refuses_the_tunnel")
+                leaked = [s for s in sim.socks if not _closed_by_library(s, refused)]
                 open_sel = [s for s in sim.selectors if not s[2]]
                 if leaked or open_sel:
                     gc.collect()
-                    leaked = [s for s in sim.socks if not _closed_by_library(s)]
+                    leaked = [s for s in sim.socks if not _closed_by_library(s, refused)]
                     open_sel = [s for s in sim.selectors if not s[2]]
                 if leaked:
                     sig = "socket_leaked_at_" + site.split("(")[0]
